@@ -136,6 +136,8 @@ func exec(op string) vlib.Res {
 		return execAdm(f)
 	case "exp":
 		return execExp(f)
+	case "p":
+		return execProbe(f)
 	}
 	return vlib.Res{Impl: "bad-op"}
 }
